@@ -332,6 +332,58 @@ theorem feasible_below_infeasible (pen : Penalties) (hr : Regime pen) (inst : EI
       have m2 := Rat.mul_nonneg cp hPp0
       grind
 
+/-- **Separation at the boundary of the documented regime**: the optimisation weight may EQUAL the constraint
+penalties (as in the defaults, 100 = 100 = 100) provided the makespan share `1 − share` is positive and some job has an
+operation — then the optimisation part of every decoded state is strictly positive, and an undecodable state costs at
+least twice the encoding penalty. -/
+theorem feasible_below_infeasible_boundary (pen : Penalties) (hr : Regime pen) (inst : EInst) (limit : Nat) (vars : List (List Var))
+    (h : prepare inst limit = .ok vars) (bf bi : Bits) (hlf : bf.length = nQubits vars) (hli : bi.length = nQubits vars)
+    (hfall : ∀ x ∈ (opVars inst vars).flatten, (decodeVar x.var bf).isSome = true)
+    (hfp : nPrecViolated (opVars inst vars) bf = 0) (hfo : nOvlViolated (opVars inst vars) bf = 0)
+    (hinf : (∃ x ∈ (opVars inst vars).flatten, decodeVar x.var bi = none) ∨
+            ((∀ x ∈ (opVars inst vars).flatten, (decodeVar x.var bi).isSome = true) ∧
+              1 ≤ nPrecViolated (opVars inst vars) bi + nOvlViolated (opVars inst vars) bi))
+    (hshare : pen.share < 1) (hjob : ∃ row ∈ opVars inst vars, row ≠ []) :
+    energyOf pen inst vars limit bf < energyOf pen inst vars limit bi := by
+  have hf := (energy_feasible pen hr inst limit vars h bf hlf hfall hfp hfo).2
+  have hW := hr.opt_pos
+  rcases hinf with hund | ⟨hall, hviol⟩
+  · have := (energy_undecodable pen hr inst limit vars h bi hli hund).2
+    have := hr.prec_le_enc
+    have := hr.opt_le_prec
+    grind
+  · obtain ⟨he, ⟨hm0, hm1⟩, ⟨he0, he1⟩⟩ := energy_decoded pen inst limit vars h bi hli hall
+    have hd := allDecoded_of_translate inst limit vars h bi hli hall
+    have hmpos := makespanTerm_pos (opVars inst vars) limit bi hd hjob
+    have hs0 := hr.share_nonneg
+    have a1 : 0 < pen.opt * (1 - pen.share) := Rat.mul_pos hW (by grind)
+    have a2 : 0 ≤ pen.opt * pen.share := Rat.mul_nonneg (by grind) hs0
+    have b1 : 0 < makespanTerm (opVars inst vars) limit bi * (pen.opt * (1 - pen.share)) := Rat.mul_pos hmpos a1
+    have b2 := Rat.mul_nonneg he0 a2
+    have hPp := hr.opt_le_prec
+    have hPo := hr.opt_le_ovl
+    have hPp0 : 0 ≤ pen.prec := by grind
+    have hPo0 : 0 ≤ pen.ovl := by grind
+    have cp : (0 : Rat) ≤ ((nPrecViolated (opVars inst vars) bi : Nat) : Rat) := Rat.natCast_nonneg
+    have co : (0 : Rat) ≤ ((nOvlViolated (opVars inst vars) bi : Nat) : Rat) := Rat.natCast_nonneg
+    rw [he]
+    by_cases hp0 : 1 ≤ nPrecViolated (opVars inst vars) bi
+    · have c : (1 : Rat) ≤ ((nPrecViolated (opVars inst vars) bi : Nat) : Rat) := by
+        have : ((1 : Nat) : Rat) ≤ ((nPrecViolated (opVars inst vars) bi : Nat) : Rat) := Rat.natCast_le_natCast.mpr hp0
+        exact this
+      have m1 : 1 * pen.prec ≤ ((nPrecViolated (opVars inst vars) bi : Nat) : Rat) * pen.prec :=
+        Rat.mul_le_mul_of_nonneg_right c hPp0
+      have m2 := Rat.mul_nonneg co hPo0
+      grind
+    · have ho0 : 1 ≤ nOvlViolated (opVars inst vars) bi := by omega
+      have c : (1 : Rat) ≤ ((nOvlViolated (opVars inst vars) bi : Nat) : Rat) := by
+        have : ((1 : Nat) : Rat) ≤ ((nOvlViolated (opVars inst vars) bi : Nat) : Rat) := Rat.natCast_le_natCast.mpr ho0
+        exact this
+      have m1 : 1 * pen.ovl ≤ ((nOvlViolated (opVars inst vars) bi : Nat) : Rat) * pen.ovl :=
+        Rat.mul_le_mul_of_nonneg_right c hPo0
+      have m2 := Rat.mul_nonneg cp hPp0
+      grind
+
 end QVerif.Encoder
 
 /-! ## Non-vacuity: the suite's 2-job / 2-machine instance at limit 4, default penalties (300, 100, 100, 100, 0) -/
@@ -343,6 +395,12 @@ def exBits (s : String) : Bits := s.toList.map (· == '1')
 
 example : Regime exPen := by
   constructor <;> decide +kernel
+
+-- the defaults sit on the boundary of the regime (W = P_prec = P_ovl) with the whole optimisation weight on the makespan:
+-- the hypotheses of `feasible_below_infeasible_boundary`, not of `feasible_below_infeasible`
+example : exPen.opt = exPen.prec ∧ exPen.opt = exPen.ovl ∧ exPen.share < 1 := by decide +kernel
+example : (match prepare exInst01 4 with | .ok vars => decide (∃ row ∈ opVars exInst01 vars, row ≠ []) | _ => false) = true := by
+  decide +kernel
 
 -- qubits: j1.o1 [0,1], j1.o2 [2,3], j2.o1 [4], j2.o2 [5]   (limit 4: j1 has 2 spare slots, j2 has 1)
 -- feasible: j1 at 0,1; j2 at 0,1  → energy in [0, 100]
